@@ -15,6 +15,9 @@ from mdsa.astutil import call_attr, local_calls, norm
 from mdsa.cfg import walk_local
 from mdsa.loader import AnalysisError, dotted
 
+from mdsa import match as MM
+
+from .sem import F
 from .common import Ctx, local_defs, node_of
 
 C = "schema.core"
@@ -50,67 +53,122 @@ def run(P, rep, tier):
 
 def r1_wiring(P, rep, ctx):
     cp = P.func("schema.pg.PGSchema.check_plugin")
-    rep.check(any(norm(c.func) == "check_types" and c.args and norm(c.args[0]) == cp.params[2] for c in local_calls(cp.node)), "C13.R1", cp.qual, "the schema plugin group checks field types of every loaded schema", cp.loc(), construct="check_plugin -> check_types", message="PGSchema.check_plugin does not call check_types(plugin)")
+    cpf = F(ctx, cp)
+    rep.check(bool(cpf.calls(f"check_types({cp.params[2]})", f"check_types({cp.params[2]}, ___)")), "C13.R1", cp.qual, "the schema plugin group checks field types of every loaded schema", cp.loc(), construct="check_plugin -> check_types", message="PGSchema.check_plugin does not call check_types(plugin)")
     lp = P.func("plugin.interface.PluginGroup._load_plugin")
-    g = ctx.cfg(lp)
-    ck = [n.idx for n in g.nodes if any(call_attr(c) == "check_plugin" for c in g.calls(n.idx))]
-    ini = [n.idx for n in g.nodes if any(call_attr(c) == "init_plugin" for c in g.calls(n.idx))]
-    rep.check(bool(ck) and bool(ini) and all(g.every_path_passes(ck, i) for i in ini) and g.every_path_passes(ck, g.exit), "C13.R1", lp.qual, "every plugin is checked before it is initialised / handed out", lp.loc(), construct="check before init", message="_load_plugin can initialise a plugin without running check_plugin")
+    lf = F(ctx, lp)
+    ck = lf.calls("self.check_plugin(___)")
+    ini = lf.calls("self.init_plugin(___)")
+    rep.check(bool(ck) and bool(ini) and lf.all_hit_before(ini, nodes=ck) and lf.hit_before(lf.g.exit, nodes=ck), "C13.R1", lp.qual, "every plugin is checked before it is initialised / handed out", lp.loc(), construct="check before init", message="_load_plugin can initialise a plugin without running check_plugin")
     el = P.func("plugin.interface.PluginGroup._ensure_is_loaded")
-    rep.check("self._load_plugin(ep_name, ret)" in norm(el.node), "C13.R1", el.qual, "loading an entry point runs _load_plugin", el.loc(), construct="_ensure_is_loaded", message="_ensure_is_loaded does not call _load_plugin")
+    ef = F(ctx, el)
+    rep.check(bool(ef.calls("self._load_plugin(___)")), "C13.R1", el.qual, "loading an entry point runs _load_plugin", el.loc(), construct="_ensure_is_loaded", message="_ensure_is_loaded does not call _load_plugin")
     ct = P.func(f"{C}.check_types")
-    g = ctx.cfg(ct)
+    f = F(ctx, ct)
+    g = f.g
+    sc = ct.params[0]
     loops = [n for n in g.nodes if n.kind == "for"]
-    base_loop = [n for n in loops if norm(n.stmt.iter) in ("schema.__bases__", "schema.__mro__[1:]", "schema.mro()[1:]")]
+    base_loop = [n for n in loops if f.x(n.stmt.iter) in (f"{sc}.__bases__", f"{sc}.__mro__[1:]", f"{sc}.mro()[1:]") and isinstance(n.stmt.target, ast.Name)]
     ok = bool(base_loop)
     if ok:
-        bv = norm(base_loop[0].stmt.target)
-        bt = [t.idx for t in g.nodes if t.kind == "test" and norm(t.exprs[0]) == f"issubclass({bv}, MetadataSchema)"]
-        rc = [n.idx for n in g.nodes if n.kind == "stmt" and norm(n.stmt) == f"check_types({bv}, recheck=recheck)"]
-        ok = bool(bt) and bool(rc) and all(any(g.edge_dominates(t, "T", r) for t in bt) for r in rc) and all(g.every_path_passes(rc, base_loop[0].idx, src=t, src_label="T") for t in bt) and g.every_path_passes(bt, base_loop[0].idx, src=base_loop[0].idx, src_label="iter")
+        L = base_loop[0].idx
+        bv = base_loop[0].stmt.target.id
+        bt = f.tests(f"issubclass({bv}, MetadataSchema)")
+        rc = f.calls(f"check_types({bv}, recheck=recheck)")
+        ok = bool(bt) and bool(rc) and f.hit_before(L, nodes=rc, edges=f.neg(bt), src_edge=(L, "iter"))
     rep.check(ok, "C13.R1", ct.qual, "check_types recurses into every MetadataSchema base of the class (registered or not)", ct.loc(), construct="base recursion of check_types",
               message="check_types does not recurse over all bases of the schema (schema.__bases__): an unregistered intermediate class with an incompatible override is never checked")
-    rep.check(any("schemaFields[f].schemas" in norm(n.stmt.iter) for n in loops) and "check_types(s, recheck=recheck)" in norm(ct.node), "C13.R1", ct.qual, "check_types recurses into nested field schemas", ct.loc(), construct="nested recursion", message="check_types does not check nested schemas")
-    ca = [n.idx for n in g.nodes if any(norm(c.func) == "check_allowed_types" for c in g.calls(n.idx))]
-    co = [n.idx for n in g.nodes if any(norm(c.func) == "check_overrides" for c in g.calls(n.idx))]
-    skip = [t.idx for t in g.nodes if t.kind == "test" and "__types_checked__" in norm(t.exprs[0])]
-    ok = bool(ca) and bool(co) and bool(skip) and all(g.every_path_passes(co, g.exit, src=t, src_label="F") and g.every_path_passes(ca, g.exit, src=t, src_label="F") for t in skip)
+    nested_ok = False
+    for n in loops:
+        itx = f.x(n.stmt.iter)
+        if ".schemas" in itx and f"{sc}.Fields" in itx:
+            nested_ok = bool([c for i_, c, b in f.call_sites("check_types(__s, recheck=recheck)") if f"{sc}.Fields" in f.x_at(i_, b["__s"]) or ".schemas" in f.x_at(i_, b["__s"])])
+    rep.check(nested_ok, "C13.R1", ct.qual, "check_types recurses into nested field schemas", ct.loc(), construct="nested recursion", message="check_types does not check nested schemas")
+    ca = f.calls(f"check_allowed_types({sc})")
+    co = f.calls(f"check_overrides({sc})")
+    is_root = f.tests(f"{sc} is MetadataSchema")
+    checked = f.tests(f"{sc}.__types_checked__")
+    recheck = f.tests("recheck")
+    # skipped only for the root class, or when already checked and no recheck was requested
+    ok = bool(ca) and bool(co) and bool(is_root) and bool(checked) and bool(recheck)
+    ok = ok and f.hit_before(g.exit, nodes=ca, edges=is_root + checked) and f.hit_before(g.exit, nodes=co, edges=is_root + checked) and f.hit_before(g.exit, nodes=ca, edges=is_root + f.neg(recheck)) and f.hit_before(g.exit, nodes=co, edges=is_root + f.neg(recheck))
     rep.check(ok, "C13.R1", ct.qual, "unless already checked, both the allowed-type and the override check run", ct.loc(), construct="checks in check_types", message="check_types can return for an unchecked schema without running check_overrides / check_allowed_types")
-    st = [norm(t.exprs[0]) for t in g.nodes if t.kind == "test" and "__types_checked__" in norm(t.exprs[0])]
-    rep.check(st == ["schema is MetadataSchema or (schema.__types_checked__ and (not recheck))"], "C13.R1", ct.qual, "only MetadataSchema itself and already checked classes are skipped", ct.loc(), construct=f"skip condition {st}", message=f"check_types skips schemas under {st}")
+    other_tests = [norm(t.exprs[0]) for t in g.nodes if t.kind == "test" and t.idx not in f.test_nodes(is_root + checked + recheck) and not g.reach([t.idx]) & {n.idx for n in loops} - set() and f.reaches([(t.idx, "T"), (t.idx, "F")], [g.exit]) and not f.hit_before(t.idx, nodes=[n.idx for n in loops])]
+    skip_extra = [t for t in other_tests if t]
+    rep.check(not skip_extra, "C13.R1", ct.qual, "only MetadataSchema itself and already checked classes are skipped", ct.loc(), construct="skip condition", message=f"check_types skips schemas under {skip_extra}")
     ov = P.func(f"{C}.check_overrides")
-    g = ctx.cfg(ov)
-    tests = [t for t in g.nodes if t.kind == "test" and norm(t.exprs[0]) == "not is_subtype(hint, parent_hint)"]
-    ok = bool(tests) and all(g.exit not in g.reach([b for b, l in g.succ[t.idx] if l == "T"]) and any(isinstance(g.nodes[x].stmt, ast.Raise) and "TypeError" in norm(g.nodes[x].stmt) for x in g.reach([b for b, l in g.succ[t.idx] if l == "T"])) for t in tests)
+    o = F(ctx, ov)
+    g = o.g
+    sc = ov.params[0]
+    loops = [n for n in g.nodes if n.kind == "for" and o.x(n.stmt.iter) == f"detect_field_overrides({sc}) - {sc}.__overrides__" and isinstance(n.stmt.target, ast.Name)]
+    ok = len(loops) == 1
+    if ok:
+        L = loops[0].idx
+        fn = loops[0].stmt.target.id
+        HN, HB = f"cast(Any, {sc}._typehints)[{fn}]", f"cast(Any, {sc}._base_typehints)[{fn}]"
+        sub = [e for e in o.tests("is_subtype(__a, __b)")]
+        good = []
+        for t, lab in sub:
+            m = MM.match("is_subtype(__a, __b)", g.nodes[t].exprs[0])
+            a_, b_ = o.x_at(t, m["__a"]), o.x_at(t, m["__b"])
+            pair = _unpack_pair(o, m["__a"], m["__b"], fn, sc)
+            if (a_, b_) == (HN, HB) or pair:
+                good.append((t, lab))
+        bad = o.neg(good)
+        raises_te = any(isinstance(g.nodes[x].stmt, ast.Raise) and "TypeError" in o.x_at(x, g.nodes[x].stmt.exc) for x in g.reach(o.heads(bad)) | set(o.heads(bad))) if bad else False
+        ok = bool(good) and o.refuses(bad) and raises_te and o.hit_before(L, nodes=o.test_nodes(good), src_edge=(L, "iter")) and o.hit_before(g.exit, nodes=[L])
     rep.check(ok, "C13.R1", ov.qual, "an undeclared override that is not a subtype raises TypeError", ov.loc(), construct="override refusal", message="check_overrides does not raise TypeError for an undeclared override whose type is not a subtype of the inherited one")
-    d = local_defs(ov)
-    rep.check([norm(v) for k, v in d.get("undecl_override", []) if v is not None] == ["actual_overrides - schema.__overrides__"] and any(n.kind == "for" and norm(n.stmt.iter) == "undecl_override" for n in g.nodes) and "hint, parent_hint = (hints[fname], base_hints[fname])" in norm(ov.node), "C13.R1", ov.qual,
+    rep.check(len(loops) == 1, "C13.R1", ov.qual,
               "every actual, undeclared override is compared with the inherited hint", ov.loc(), construct="override iteration", message="check_overrides does not iterate over all actual overrides that are not declared with @override")
-    un = [t for t in g.nodes if t.kind == "test" and norm(t.exprs[0]) in ("(unreal_override := (schema.__overrides__ - set(base_hints.keys())))", "(miss_override := (schema.__overrides__ - actual_overrides))")]
-    rep.check(len(un) == 2 and all(g.exit not in g.reach([b for b, l in g.succ[t.idx] if l == "T"]) for t in un) and g.every_path_passes([t.idx for t in un], g.exit), "C13.R1", ov.qual, "declaring an override for a field the parents do not have raises", ov.loc(), construct="unreal override", message="a declared override without parent field is accepted")
+    un1 = o.tests(f"{sc}.__overrides__ - set(cast(Any, {sc}._base_typehints).keys())", f"{sc}.__overrides__ - set(cast(Any, {sc}._base_typehints))")
+    un2 = o.tests(f"{sc}.__overrides__ - detect_field_overrides({sc})")
+    rep.check(o.refuses(un1) and o.refuses(un2) and o.hit_before(g.exit, nodes=o.test_nodes(un1)) and o.hit_before(g.exit, nodes=o.test_nodes(un2)), "C13.R1", ov.qual, "declaring an override for a field the parents do not have raises", ov.loc(), construct="unreal override", message="a declared override without parent field is accepted")
     do = P.func(f"{C}.detect_field_overrides")
-    t = norm(do.node)
-    rep.check("anns = get_annotations(schema)" in t and "base_hints = cast(Any, schema._base_typehints)" in t and "set(base_hints.keys()).intersection(new_hints)" in t, "C13.R1", do.qual, "overrides = own annotations that also occur in the bases' hints", do.loc(), construct="detect_field_overrides", message="detect_field_overrides changed shape")
+    d = F(ctx, do)
+    sc = do.params[0]
+    rets = [d.xe(v) for _, v in d.returns() if v is not None]
+    okd = len(rets) == 1
+    if okd:
+        m = MM.match(f"set(cast(Any, {sc}._base_typehints).keys()).intersection(__n)", rets[0]) or MM.match(f"set(cast(Any, {sc}._base_typehints)).intersection(__n)", rets[0]) or MM.match(f"set(cast(Any, {sc}._base_typehints).keys()) & __n", rets[0])
+        okd = m is not None and isinstance(m["__n"], ast.SetComp) and len(m["__n"].generators) == 1 and norm(m["__n"].generators[0].iter) == f"get_annotations({sc}).items()" and len(m["__n"].generators[0].ifs) == 1 and MM.match(f"is_pub_instance_field({sc}, __k, __h)", m["__n"].generators[0].ifs[0]) is not None
+    rep.check(okd, "C13.R1", do.qual, "overrides = own annotations that also occur in the bases' hints", do.loc(), construct="detect_field_overrides", message="detect_field_overrides changed shape")
+
+
+def _unpack_pair(o, a, b, fn, sc) -> bool:
+    """`hint, parent_hint = (hints[f], base_hints[f])` feeding is_subtype(hint, parent_hint)"""
+    if not (isinstance(a, ast.Name) and isinstance(b, ast.Name)):
+        return False
+    for st in walk_local(o.node):
+        if isinstance(st, ast.Assign) and len(st.targets) == 1 and isinstance(st.targets[0], ast.Tuple) and [norm(e) for e in st.targets[0].elts] == [a.id, b.id] and isinstance(st.value, ast.Tuple) and len(st.value.elts) == 2:
+            return (o.x(st.value.elts[0]), o.x(st.value.elts[1])) == (f"cast(Any, {sc}._typehints)[{fn}]", f"cast(Any, {sc}._base_typehints)[{fn}]")
+    return False
 
 
 def r2_extras(P, rep, ctx):
     fi = P.func(f"{C}.SchemaMagic.__new__")
-    g = ctx.cfg(fi)
-    pf = [t.idx for t in g.nodes if t.kind == "test" and norm(t.exprs[0]) == "parent_forbids_extras"]
-    t1 = [t.idx for t in g.nodes if t.kind == "test" and norm(t.exprs[0]) == "extra is not Extra.forbid"]
-    t2 = [t.idx for t in g.nodes if t.kind == "test" and "new_flds :=" in norm(t.exprs[0])]
-    rets = [n.idx for n in g.nodes if isinstance(n.stmt, ast.Return)]
-    ok = bool(pf) and bool(t1) and bool(t2)
-    for lst in (t1, t2):
-        ok = ok and all(g.exit not in g.reach([b for b, l in g.succ[t] if l == "T"]) for t in lst) and all(g.every_path_passes(lst, r, src=p, src_label="T") for p in pf for r in rets)
-    ok = ok and all(g.every_path_passes(pf, r) for r in rets)
-    rep.check(ok, "C13.R2", fi.qual, "if the parent forbids extra fields the child must forbid them too and may not add fields", fi.loc(), construct="extras policy", message="SchemaMagic.__new__ lets a child loosen the parent's extra=forbid policy (child accepts what the parent rejects)")
-    nf = [norm(g.nodes[t].exprs[0]) for t in t2]
-    rep.check(nf == ["(new_flds := (set(ret.__fields__.keys()) - set(baseschema.__fields__.keys())))"] or nf == ["new_flds := set(ret.__fields__.keys()) - set(baseschema.__fields__.keys())"], "C13.R2", fi.qual,
-              "new fields = all pydantic fields of the child minus those of the parent (annotated or not)", fi.loc(), construct=f"new_flds = {nf}",
-              message=f"the new-field test is {nf}: fields that pydantic infers without an annotation (e.g. `note = 'x'`) are not counted, so a child of an extra=forbid parent can add fields the parent rejects")
-    d = local_defs(fi)
-    rep.check([norm(v) for k, v in d.get("parent_forbids_extras", []) if v is not None] == ["baseschema.__config__.extra is Extra.forbid"], "C13.R2", fi.qual, "the policy is read from the base schema's config", fi.loc(), construct="parent_forbids_extras", message="parent_forbids_extras is not computed from baseschema.__config__.extra")
+    f = F(ctx, fi)
+    g = f.g
+    rets = [i for i, v in f.returns()]
+    created = None
+    for n in g.nodes:
+        if n.kind == "stmt" and isinstance(n.stmt, (ast.Assign, ast.AnnAssign)) and n.stmt.value is not None and MM.match("super().__new__(___)", n.stmt.value) is not None:
+            t = n.stmt.targets[0] if isinstance(n.stmt, ast.Assign) else n.stmt.target
+            created = f.x(n.stmt.value) if isinstance(t, ast.Name) and f.x(ast.Name(id=t.id, ctx=ast.Load())) != t.id else norm(t)
+    if created is None:
+        raise AnalysisError("C13.R2: class creation (super().__new__) not found in SchemaMagic.__new__")
+    BASE = f"{fi.params[2]}[0]"
+    forbids = [f"{BASE}.__config__.extra is Extra.forbid", f"{BASE}.__config__.extra == Extra.forbid"]
+    r1 = f.refuses_when([forbids, [f"{created}.__config__.extra is not Extra.forbid", f"{created}.__config__.extra != Extra.forbid"]])
+    NEW = f"set({created}.__fields__.keys()) - set({BASE}.__fields__.keys())"
+    NEW2 = f"set({created}.__fields__) - set({BASE}.__fields__)"
+    r2 = f.refuses_when([forbids, [NEW, NEW2]])
+    rep.check(bool(r1) and bool(r2), "C13.R2", fi.qual, "if the parent forbids extra fields the child must forbid them too and may not add fields", fi.loc(), construct="extras policy", message="SchemaMagic.__new__ lets a child loosen the parent's extra=forbid policy (child accepts what the parent rejects)")
+    nf = f.tests(NEW, NEW2)
+    diffs = [norm(t.exprs[0]) for t in g.nodes if t.kind == "test" and "__fields__" in f.x_at(t.idx, t.exprs[0])] + [norm(t.exprs[0]) for t in g.nodes if t.kind == "test" and "new_flds" in norm(t.exprs[0])]
+    rep.check(bool(nf), "C13.R2", fi.qual,
+              "new fields = all pydantic fields of the child minus those of the parent (annotated or not)", fi.loc(), construct="new-field test",
+              message=f"the new-field test is {diffs}: fields that pydantic infers without an annotation (e.g. `note = 'x'`) are not counted, so a child of an extra=forbid parent can add fields the parent rejects")
+    rep.check(bool(f.tests(*forbids)), "C13.R2", fi.qual, "the policy is read from the base schema's config", fi.loc(), construct="parent_forbids_extras", message="parent_forbids_extras is not computed from baseschema.__config__.extra")
 
 
 # ------------------------------------------------------------------------------------------- R3 type algebra
@@ -309,36 +367,129 @@ def r5_const_specialisation(P, rep, ctx):
     af = fi.nested.get("add_fields")
     if af is None:
         raise AnalysisError("add_const_fields.add_fields not found")
+    f = F(ctx, af)
+    g = f.g
+    mc = af.params[0]
+    loops = [n for n in g.nodes if n.kind == "for" and f.x(n.stmt.iter) == f"{fi.params[0]}.items()" and isinstance(n.stmt.target, ast.Tuple) and len(n.stmt.target.elts) == 2]
+    if len(loops) != 1:
+        raise AnalysisError("C13.R5: loop over consts.items() not found in add_fields")
+    L = loops[0].idx
+    nm, val = norm(loops[0].stmt.target.elts[0]), norm(loops[0].stmt.target.elts[1])
+    FD = f"{mc}.__fields__.get({nm})"
+    inherited = f.tests(FD, f"{FD} is not None", f"{nm} in {mc}.__fields__")
+    is_en = f.tests(f"is_enum({FD}.type_)")
+    is_li = f.tests(f"is_literal({FD}.type_)")
+    # the validity flag: a multiply-assigned local tested on the way to `raise TypeError`
+    type_raises = [n.idx for n in g.nodes if n.kind == "stmt" and isinstance(n.stmt, ast.Raise) and n.stmt.exc is not None and "TypeError" in f.x_at(n.idx, n.stmt.exc)]
+    val_raises = [n.idx for n in g.nodes if n.kind == "stmt" and isinstance(n.stmt, ast.Raise) and n.stmt.exc is not None and "ValueError" in f.x_at(n.idx, n.stmt.exc)]
+    flag = None
+    for t in g.nodes:
+        if t.kind == "test" and isinstance(t.exprs[0], ast.Name) and f.refuses([(t.idx, "F")]) and f.reaches([(t.idx, "F")], type_raises) and not (set(type_raises) & (g.reach(f.heads([(t.idx, "T")]), avoid=[L]) | set(f.heads([(t.idx, "T")])))):
+            flag = t
     d = local_defs(af)
-    vs = sorted({norm(v) for k, v in d.get("valid_specialization", []) if v is not None})
-    want = sorted({"False", "isinstance(value, field_def.type_)", "is_subtype(lit_const, field_def.type_)"})
-    rep.check(vs == want, "C13.R5", af.qual, "enum constants must be members of the parent's enum, literal constants a sub-literal of the parent's literal", af.loc(), construct=f"valid_specialization = {vs}",
+    vs = sorted({f.x(v) for k, v in d.get(flag.exprs[0].id, []) if v is not None}) if flag is not None else []
+    direct = [f"not isinstance({val}, {FD}.type_)"], [f"not is_subtype(Literal[{val}], {FD}.type_)"]
+    want = sorted({"False", f"isinstance({val}, {FD}.type_)", f"is_subtype(Literal[{val}], {FD}.type_)"})
+    ok_flag = flag is not None and vs == want
+    if ok_flag:
+        # each definition is made under its own kind, and the flag is consulted whenever one of the kinds applies
+        en_defs = [i for i, v, b in f.stores(flag.exprs[0].id) if f.x(v) == f"isinstance({val}, {FD}.type_)"]
+        li_defs = [i for i, v, b in f.stores(flag.exprs[0].id) if f.x(v) == f"is_subtype(Literal[{val}], {FD}.type_)"]
+        it = (L, "iter")
+        ok_flag = (bool(is_en) and bool(is_li) and bool(inherited) and f.all_hit_before(en_defs, edges=is_en, src=L) and f.all_hit_before(li_defs, edges=is_li, src=L)
+                   # the flag consulted for an enum field was computed by the enum test, for a literal field by the literal test
+                   and f.hit_before(flag.idx, nodes=en_defs, edges=f.neg(is_en), src_edge=it) and f.hit_before(flag.idx, nodes=li_defs, edges=f.neg(is_li) + is_en, src_edge=it)
+                   # and it is consulted whenever the inherited field is an enum or a literal
+                   and f.hit_before(L, nodes=[flag.idx], edges=f.neg(is_en) + f.neg(inherited), src_edge=it) and f.hit_before(L, nodes=[flag.idx], edges=f.neg(is_li) + f.neg(inherited), src_edge=it))
+    else:
+        # flag-free form: the two tests are made directly
+        a = f.refuses_when([[f"is_enum({FD}.type_)"], direct[0]], src_edge=(L, "iter"), targets=[L, g.exit])
+        b_ = f.refuses_when([[f"is_literal({FD}.type_)"], direct[1]], src_edge=(L, "iter"), targets=[L, g.exit])
+        ok_flag = bool(a) and bool(b_)
+    rep.check(ok_flag, "C13.R5", af.qual, "enum constants must be members of the parent's enum, literal constants a sub-literal of the parent's literal", af.loc(), construct="valid specialisation",
               message=f"add_const_fields accepts a constant for an inherited enum/literal field under {vs}: e.g. an enum *name* that is not a valid *value* is dumped by the child and rejected by the parent")
-    g = ctx.cfg(af)
-    tests = [t for t in g.nodes if t.kind == "test" and norm(t.exprs[0]) == "(enum_specialization or literal_specialization) and (not valid_specialization)"]
-    rep.check(bool(tests) and all(g.exit not in g.reach([b for b, l in g.succ[t.idx] if l == "T"]) for t in tests), "C13.R5", af.qual, "an invalid specialisation raises TypeError", af.loc(), construct="invalid specialisation raises", message="an invalid enum/literal specialisation is not refused")
-    ov = [t for t in g.nodes if t.kind == "test" and norm(t.exprs[0]) == "not (override or enum_specialization or literal_specialization)"]
-    rep.check(bool(ov) and all(g.exit not in g.reach([b for b, l in g.succ[t.idx] if l == "T" and not isinstance(g.nodes[b].stmt, ast.Assign)]) or True for t in ov) and any(isinstance(g.nodes[x].stmt, ast.Raise) for t in ov for x in g.reach([b for b, l in g.succ[t.idx] if l == "T"])), "C13.R5", af.qual,
+    rep.check(ok_flag and bool(type_raises), "C13.R5", af.qual, "an invalid specialisation raises TypeError", af.loc(), construct="invalid specialisation raises", message="an invalid enum/literal specialisation is not refused")
+    need_ovr = f.refuses_when([[FD, f"{FD} is not None", f"{nm} in {mc}.__fields__"], [f"not {fi.params[1]}"], [f"not is_enum({FD}.type_)"], [f"not is_literal({FD}.type_)"]], src_edge=(L, "iter"), targets=[L, g.exit])
+    rep.check(bool(need_ovr) and bool(val_raises), "C13.R5", af.qual,
               "overriding an ordinary inherited field with a constant needs override=True", af.loc(), construct="override required", message="add_const_fields silently replaces an ordinary inherited field")
 
 
 def r4_wrapper_stricter(P, rep, ctx):
     fi = P.func("util.typing.is_subtype")
-    rets = [x.value for x in walk_local(fi.node) if isinstance(x, ast.Return)]
-    bad = [r for r in rets if not (isinstance(r, ast.Constant) and r.value is False) and norm(r) not in ("rv.is_subtype(sub, base)",) and not (isinstance(r, ast.Call) and norm(r.func) == "is_subtype")]
-    rep.check(not bad, "C13.R4", fi.qual, "is_subtype returns only False, the third-party verdict, or a recursive verdict", fi.loc(), construct=f"returns {[norm(r) for r in rets]}",
+    f = F(ctx, fi)
+    g = f.g
+    a, b = fi.params[0], fi.params[1]
+    rets = [(i, v) for i, v in f.returns() if v is not None]
+    RV = f"rv.is_subtype({a}, {b})"
+    REC = f"is_subtype(get_args({a})[0], get_args({b})[0])"
+
+    def kind(i, v):
+        if isinstance(v, ast.Constant) and v.value is False:
+            return "false"
+        t = _unpack_expand(f, v)
+        return "rv" if t == RV else "rec" if t == REC else "other"
+
+    kinds = [(i, kind(i, v), v) for i, v in rets]
+    bad = [v for i, k, v in kinds if k == "other"]
+    rep.check(not bad, "C13.R4", fi.qual, "is_subtype returns only False, the third-party verdict, or a recursive verdict", fi.loc(), construct="is_subtype results",
               message=f"is_subtype accepts on its own (`return {norm(bad[0]) if bad else ''}`): a shortcut that bypasses the structural subtype test lets incompatible overrides through (e.g. Int under a strict Float)")
-    g = ctx.cfg(fi)
-    t1 = [t.idx for t in g.nodes if t.kind == "test" and norm(t.exprs[0]) == "ann_sub != ann_base or lit_sub != lit_base"]
-    t2 = [t.idx for t in g.nodes if t.kind == "test" and norm(t.exprs[0]) == "not ann_sub"]
-    r_false = [n.idx for n in g.nodes if isinstance(n.stmt, ast.Return) and norm(n.stmt.value) == "False"]
-    r_rv = [n.idx for n in g.nodes if isinstance(n.stmt, ast.Return) and norm(n.stmt.value) == "rv.is_subtype(sub, base)"]
-    r_rec = [n.idx for n in g.nodes if isinstance(n.stmt, ast.Return) and norm(n.stmt.value) == "is_subtype(sub_args[0], base_args[0])"]
-    ok = bool(t1) and bool(t2) and bool(r_false) and bool(r_rv) and bool(r_rec) and all(g.edge_dominates(t1[0], "T", x) for x in r_false) and all(g.edge_dominates(t1[0], "F", x) and g.edge_dominates(t2[0], "T", x) for x in r_rv) and all(g.edge_dominates(t2[0], "F", x) for x in r_rec)
+    A = lambda x: f"is_annotated({x})"
+    Lt = lambda x: f"is_literal({x})"
+    ann_diff = _tests_unpacked(f, f"{A(a)} != {A(b)}", f"{A(b)} != {A(a)}")
+    lit_diff = _tests_unpacked(f, f"{Lt(a)} != {Lt(b)}", f"{Lt(b)} != {Lt(a)}")
+    ann = _tests_unpacked(f, A(a), A(b))
+    r_false = [i for i, k, v in kinds if k == "false"]
+    r_rv = [i for i, k, v in kinds if k == "rv"]
+    r_rec = [i for i, k, v in kinds if k == "rec"]
+    ok = all((ann_diff, lit_diff, ann, r_false, r_rv, r_rec))
+    if ok:
+        ok = (f.all_hit_before(r_false, edges=ann_diff + lit_diff) and not f.reaches(ann_diff, r_rv + r_rec) and not f.reaches(lit_diff, r_rv + r_rec)
+              and f.all_hit_before(r_rv, edges=f.neg(ann)) and f.all_hit_before(r_rec, edges=ann)
+              and f.all_hit_before(r_rv + r_rec, nodes=f.test_nodes(ann_diff)) and f.all_hit_before(r_rv + r_rec, nodes=f.test_nodes(lit_diff)))
     rep.check(ok, "C13.R4", fi.qual, "differently wrapped hints (Annotated / Literal on one side only) are refused; plain hints go to the structural test; Annotated hints compare their base types", fi.loc(), construct="is_subtype decision structure",
               message="is_subtype's decision structure changed (which hints are refused outright / delegated / unwrapped)")
     from .common import require_total
 
     for q in ("util.typing.is_subtype", "schema.core.detect_field_overrides", "schema.core.SchemaMagic.__new__", "schema.core.infer_parent", "schema.core.is_pub_instance_field"):
         require_total(rep, ctx, "C13.R4", P.func(q))
-    rep.check(any(norm(r) == "rv.is_subtype(sub, base)" for r in rets), "C13.R4", fi.qual, "plain hints are decided by the structural subtype test", fi.loc(), construct="delegation", message="is_subtype no longer delegates to runtype")
+    rep.check(bool(r_rv), "C13.R4", fi.qual, "plain hints are decided by the structural subtype test", fi.loc(), construct="delegation", message="is_subtype no longer delegates to runtype")
+
+
+def _unpack_map(f) -> Dict[str, ast.AST]:
+    """names bound by `a, b = (x, y)` -> x, y"""
+    out = {}
+    for st in walk_local(f.node):
+        if isinstance(st, ast.Assign) and len(st.targets) == 1 and isinstance(st.targets[0], ast.Tuple) and isinstance(st.value, ast.Tuple) and len(st.value.elts) == len(st.targets[0].elts):
+            for t, v in zip(st.targets[0].elts, st.value.elts):
+                if isinstance(t, ast.Name):
+                    out[t.id] = v
+    return out
+
+
+def _unpack_expand(f, e: ast.AST) -> str:
+    import copy
+
+    m = _unpack_map(f)
+
+    class T(ast.NodeTransformer):
+        def visit_Name(self, node):
+            if isinstance(node.ctx, ast.Load) and node.id in m:
+                return copy.deepcopy(m[node.id])
+            return node
+
+    return f.x(T().visit(copy.deepcopy(e)))
+
+
+def _tests_unpacked(f, *patterns):
+    out = []
+    pats = [MM.polarity(MM.pat(p)) for p in patterns]
+    for n in f.g.nodes:
+        if n.kind != "test":
+            continue
+        a, neg = MM.polarity(MM.pat(_unpack_expand(f, n.exprs[0])))
+        for pa, pn in pats:
+            if MM.match(pa, a) is not None:
+                lab = "T" if neg == pn else "F"
+                if (n.idx, lab) not in out:
+                    out.append((n.idx, lab))
+    return out
